@@ -162,4 +162,57 @@ func TestArp(t *testing.T) {
 			synctest.Wait()
 		})
 	}
+	// crowded pool: most (or all) addresses of a larger pool are in use by foreign hosts that answer slowly, so one
+	// address search probes for seconds while it holds the database lock; the answer must still be an unused
+	// address or silence, however long the search takes
+	k := EnvInt("HX_K", 24)
+	if Thorough() {
+		k = 600
+	}
+	for i := 0; i < k; i++ {
+		synctest.Test(t, func(t *testing.T) {
+			base := uint32(10)<<24 | 9<<8
+			pool := 12 + r.Intn(18)
+			c := &SrvConf{Base: base, Plen: 24, SelfIP: U32IP(base + 1), SelfMAC: srvMAC, Lease: time.Hour, DynFrom: U32IP(base + 10), DynTo: U32IP(base + 10 + uint32(pool) - 1)}
+			env, err := StartServer(c)
+			if err != nil {
+				return
+			}
+			t0 := time.Now().UnixNano()
+			cfgLine := c.Line(t0)
+			s.Op(cfgLine, "ok", true)
+			synctest.Wait()
+			free := -1
+			if r.Chance(60) {
+				free = r.Intn(pool)
+			}
+			delay := Pick(r, 90*time.Millisecond, 120*time.Millisecond, 150*time.Millisecond, 190*time.Millisecond)
+			for a := 0; a < pool; a++ {
+				if a == free {
+					continue
+				}
+				env.Resp[base+10+uint32(a)] = &Responder{MAC: net.HardwareAddr{6, 6, 7, 0, 0, byte(a)}, Delay: delay}
+			}
+			mon := NewSrvMonitor(c, s, cfgLine)
+			mon.respTable = env.Resp
+			for q := 0; q < 2; q++ {
+				msg := MsgSpec{MAC: net.HardwareAddr{2, 0, 0, 0, 0xfd, byte(q)}, Type: 1, Xid: uint32(300 + q)}
+				frame := msg.Frame()
+				time.Sleep(time.Second)
+				trx := time.Now().UnixNano()
+				env.Take()
+				env.Seg.Inject(0x0800, frame)
+				time.Sleep(time.Duration(60+(pool+2)*650) * time.Millisecond)
+				synctest.Wait()
+				sent, inj := env.Take()
+				o := Observe(trx, sent, inj)
+				op := fmt.Sprintf("rx t=%d b=%s d=%d tend=%d probes=%s", trx, Hex(frame), o.D, o.Tend, o.ProbesStr())
+				s.Op(op, o.Answer(), true)
+				s.Count("crowded/" + strings.SplitN(o.Answer(), " ", 2)[0])
+				mon.Step(trx, frame, o, op)
+			}
+			env.Stop()
+			synctest.Wait()
+		})
+	}
 }
